@@ -365,6 +365,8 @@ package client
 //@   property C02
 //@   safety C02
 //@   requires line != nil
+//@   ensures [C01,C17] len(line.Args) > 0 ==> result === line.Args[len(line.Args)-1]
+//@   ensures [C01,C17] len(line.Args) == 0 ==> result == ""
 //@ end
 
 //@ func (*Line).Public
@@ -374,10 +376,14 @@ package client
 //@   ensures result && (line.Cmd == "CTCP" || line.Cmd == "CTCPREPLY") ==> len(line.Args) > 1
 //@ end
 
+//@ pred msgVerb(c string) := c == "PRIVMSG" || c == "NOTICE" || c == "ACTION"
+//@ pred ctcpVerb(c string) := c == "CTCP" || c == "CTCPREPLY"
 //@ func (*Line).Target
 //@   property C02
 //@   safety C02
 //@   requires line != nil
+//@   ensures [C01,C17] !msgVerb(line.Cmd) && !ctcpVerb(line.Cmd) && len(line.Args) > 0 ==> result === line.Args[0]
+//@   ensures [C01,C17] !msgVerb(line.Cmd) && !ctcpVerb(line.Cmd) && len(line.Args) == 0 ==> result == ""
 //@ end
 
 // ---------------------------------------------------------------------------
@@ -1029,13 +1035,12 @@ package client
 //@   ghost srv string
 //@   bind pdis int := before client.(*Conn).dispatch 1 $trlen
 //@   bind ccmd string := before client.(*Conn).dispatch 1 arg1.Cmd
-//@   bind meAtDispatch string := before client.(*Conn).dispatch 1 (conn.st != nil ? trkMe($trk) : conn.cfg.Me.Nick)
 //@   bind meOK bool := before client.(*Conn).dispatch 1 (conn.cfg.Me != nil && srvNick(conn, line.Args[0]))
 //@   requires connInv(conn) && line != nil && line.Cmd == "001" && len(line.Args) >= 1 && srvNick(conn, srv)
 //@   requires conn.st != nil ==> (forall n string :: trkHas($trk, sid(n)) ==> n == srv)
 //@   modifies $tr, $wg, $log, $trk, $now, heap
-//@   ensures [C03] ccmd == "CONNECTED" && meAtDispatch == line.Args[0]
-//@   ensures [C17] meOK
+//@   ensures [C03] ccmd == "CONNECTED"
+//@   ensures [C03,C17] meOK
 //@ end
 
 //@ func (*Conn).h_NICK
